@@ -40,7 +40,7 @@ def run(pid, name, edits, tier):
             return 'CAUGHT ' + msg.strip()[:150], dt
         if r.returncode == 0:
             return 'MISSED', dt
-        return 'ERROR rc=%d %s' % (r.returncode, ' | '.join(out[-3:])[:300]), dt
+        return 'ERROR rc=%d %s' % (r.returncode, ' | '.join(out[:4] + out[-3:])[:1500]), dt
     finally:
         shutil.rmtree(d, ignore_errors=True)
 
